@@ -170,6 +170,11 @@ def generic_case(acc, g, rc):
 
 def run_batch(b):
     acc = harness.Acc()
+    if b.get("real"):
+        # the application layer as shipped: worker process, Manager queues, real loopback (bvm/realapp.py)
+        from bvm import realnet
+        realnet.run_cases(acc, b["real"])
+        return acc
     g = Gen(b["seed"])
     ps = pairs()
     r = g.rng
@@ -207,12 +212,14 @@ def main(tier, seed):
         batches.append({"kind": "pairs", "i": i, "m": m, "nrand": 20 if q else 3000, "seed": seed * 31337 + 100 + i})
     for i in range(2 if q else 16):
         batches.append({"kind": "generic", "n": 3000 if q else 20000, "seed": seed * 31337 + 200 + i})
+    for i in range(3 if q else 16):
+        batches.append({"real": [{"kind": "app", "seed": seed * 389 + i * 23 + j, "judge": "decoration"} for j in range(1 if q else 4)]})
     acc = harness.run_workers("checks.c12_decorate_answer", "run_batch", batches, 1500)
     return harness.finish(PROP, tier, seed, "exploration", acc, RULE,
                           ["multiples of 1000 and answers carrying both Result-Code and Experimental-Result are not judged for the E flag",
                            "an answer without Session-Id for a request that has one makes decorate_answer raise AttributeError: observed, not judged (the statement does not cover it)",
                            "the message placed on the worker's send queue is observed by C13 through the same function"],
-                          t0, require_counters=("decorate_calls", "e_flag_judged"))
+                          t0, require_counters=("decorate_calls", "e_flag_judged", "real_loopback_ok"))
 
 
 def replay(w):
